@@ -135,14 +135,17 @@ CLAIMED.update({
 })
 
 CLAIMED.update({
-    "C18": ("proof", "two parts. (1) BOUNDED, not proved: parse_tag (regular expressions with capture groups, outside the engine) is compared with "
-            "a hand-written oracle parser of the documented address grammar on an exhaustive enumeration of that grammar (6e4 addresses in the "
-            "quick tier, ~1e7 in the thorough tier: all file numbers 0..257, elements 0..257, bits, binary bit numbers 0..4199, counts, cases, "
-            "sub-element mnemonics, over-long digit runs and junk). (2) PROVED for every value parse_tag can return: _read_tag / _write_tag emit "
+    "C18": ("proof", "three parts. (1) PROVED on constructed addresses: parse_tag's regular expressions are interpreted by the engine "
+            "(pattern parsed by CPython's own re parser, backtracking matcher over symbolic numerals and letter casings, pyvc/rx.py), so "
+            "for every shape of the grammar (word / bit / {count} forms of N B F L files, B<f>/<n>, S, I/O with and without file and word, "
+            "timer / counter sub-elements) and ALL numerals in it the extracted file, element, sub-element, word, count and the range "
+            "checks (file 1..255, element 0..255, bit 0..15, n 0..4095, over-long digit runs) equal the values stated from the components. "
+            "(1b) BOUNDED: the same function against a hand-written oracle parser on an exhaustive enumeration of the grammar incl. junk "
+            "and string / ASCII files (6e4 addresses quick, ~1e7 thorough). (2) PROVED for every value parse_tag can return: _read_tag / _write_tag emit "
             "the protected typed logical read / masked write with exactly the byte size, file number, file type code, element and sub-element "
             "of the address, the bit mask 1 << bit (0xFFFF for words) and the encoded data; replies decode to the word, the {count} list, "
             "the addressed bit, or PRE / ACC; non-zero STS gives a falsy Tag; a lemma over the target's masked-write rule shows a bit write "
-            "changes only that bit", "contracts given parse_tag's postcondition (pyvc + z3) + exhaustive grammar enumeration for the regex part",
+            "changes only that bit", "contracts incl. an interpreted regex matcher over constructed strings (pyvc + z3) + exhaustive grammar enumeration as a second line",
             "DESIGN.md 3 (C18), 9"),
 })
 
